@@ -123,6 +123,7 @@ type Outcome struct {
 	results []Val
 	panics  bool
 	site    string // source position of the return statement (top-level outcomes)
+	fr      *Frame // the frame (of this path) that executed the return
 }
 
 type unsupported struct{ msg string }
@@ -475,7 +476,7 @@ func (e *Engine) runBlockAt(fr *Frame, st *State, b *ssa.BasicBlock, from *ssa.B
 				for i, r := range x.Results {
 					res[i] = e.materialize(e.val(fr, st, r), r.Type())
 				}
-				*outs = append(*outs, Outcome{st: st, results: res, site: e.pos(x)})
+				*outs = append(*outs, Outcome{st: st, results: res, site: e.pos(x), fr: fr})
 				return
 			case *ssa.Panic:
 				e.onPanic(fr, st, x, "explicit panic")
